@@ -521,32 +521,58 @@ fn fam_indirect(rng: &mut Rng) -> Cfg {
     let mut c = Cfg::new("indirect");
     let s = c.nt("Unit");
     c.start = s;
-    let k = rng.range(2, 3);
-    let names = ["Expr", "Call", "Member"];
+    let k = rng.range(2, 4);
+    let names = ["Expr", "Call", "Member", "Target"];
     let cyc: Vec<usize> = (0..k).map(|i| c.nt(names[i])).collect();
+    let mut suffixes = vec![];
+    let mut bases = 0;
     for i in 0..k {
         let next = cyc[(i + 1) % k];
         let suffix = c.term(&format!("Post{}", i));
-        let own = c.term(&format!("Base{}", i));
-        if rng.chance(1, 2) {
-            c.rule(cyc[i], vec![N(next), T(suffix)]);
-            c.rule(cyc[i], vec![T(own)]);
+        suffixes.push(suffix);
+        // not every member needs a base case of its own (one is enough)
+        let with_base = i == 0 || rng.chance(1, 2);
+        if with_base {
+            bases += 1;
+            let own = c.term(&format!("Base{}", i));
+            if rng.chance(1, 2) {
+                c.rule(cyc[i], vec![N(next), T(suffix)]);
+                c.rule(cyc[i], vec![T(own)]);
+            } else {
+                c.rule(cyc[i], vec![T(own)]);
+                c.rule(cyc[i], vec![N(next), T(suffix)]);
+            }
         } else {
-            c.rule(cyc[i], vec![T(own)]);
             c.rule(cyc[i], vec![N(next), T(suffix)]);
         }
-        if rng.chance(1, 3) {
+        if rng.chance(1, 4) {
             c.rule(cyc[i], vec![N(next)]);
         }
     }
+    let _ = bases;
     let lead = c.nt("Lead");
     let lt = c.term("Kw");
     c.rule(lead, vec![T(lt)]);
     if rng.chance(1, 2) {
         c.rule(lead, vec![]);
     }
-    let which = cyc[rng.below(k)];
-    c.rule(s, vec![N(lead), N(which)]);
+    // uses of cycle members from outside the cycle: at the end of a rule, or followed by a
+    // terminal — a fresh one, or one of the cycle's own suffix terminals (the same follower
+    // inside and outside the cycle)
+    let uses = rng.range(1, 3);
+    for u in 0..uses {
+        let which = cyc[rng.below(k)];
+        let mut rhs = if rng.chance(1, 2) { vec![N(lead), N(which)] } else { vec![T(lt), N(which)] };
+        match rng.below(3) {
+            0 => {}
+            1 => rhs.push(T(suffixes[rng.below(k)])),
+            _ => {
+                let f = c.term(&format!("Follow{}", u));
+                rhs.push(T(f));
+            }
+        }
+        c.rule(s, rhs);
+    }
     if rng.chance(1, 2) {
         let semi = c.term("Semi");
         let other = cyc[rng.below(k)];
